@@ -26,7 +26,7 @@ REQUIRED = {"C14": {"healthy-package": 200, "fault:duplicate": 30, "fault:defaul
                     "select:none": 30, "period-api": 200, "period-run": 60, "iteration-checked": 2000, "after-disable-silent": 100,
                     "other-modes-silent-checked": 200, "chooser-options-checked": 200, "disable-after-run-silent": 30, "disable-mid-run": 15, "reselected-between-periods": 50, "elapsed-time-checked": 500,
                     "mode-class-imported-from-library-module": 20, "run-period-of-1ms": 5,
-                    "fault-is-a-BaseException": 10, "selector-forwards-constructor-arguments": 100, "constructor-fails-with-TypeError": 3, "namespace-package": 30, "run-with-watchdog": 20, "run-iter_fn:none": 10, "run-iter_fn:list": 10, "period-without-disable": 20, "missing-dotted-package": 3, "falsy-mode-object-chosen": 5}}
+                    "fault-is-a-BaseException": 10, "selector-forwards-constructor-arguments": 100, "constructor-fails-with-TypeError": 3, "namespace-package": 30, "run-with-watchdog": 20, "run-iter_fn:none": 10, "run-iter_fn:list": 10, "period-without-disable": 20, "missing-dotted-package": 3, "falsy-mode-object-chosen": 5, "run-elapsed-time-checked": 100, "run-iteration-overran-the-loop-period": 20}}
 ASSUMPTIONS = {"C14": ["a mode class re-exported by a second module is not generated (the statement does not say whether it is found twice)",
                        "a mode class that exactly one package module imports from a module outside the package counts as 'found in the modules of the package'",
                        "with several DEFAULT modes and the FMS attached the preselected mode may be any of them",
@@ -141,13 +141,20 @@ def gen_case(rng, uid):
                 ops.append(["periodic"])
             periods.append(ops)
         else:
-            its = rng.choice([1, 2, 5, 15])
-            periods.append({"iterations": its, "period_us": rng.choice([20000, 5000, 50000, 1000, 20000]),
+            its = rng.choice([1, 2, 5, 15]) if rng.random() > 0.05 else rng.choice([60, 120, 260])
+            P_ = rng.choice([20000, 5000, 50000, 1000, 20000])
+            overruns = {}
+            if rng.random() < 0.35:
+                # iterations whose body takes longer than the loop period (the loop then catches up with back-to-back iterations)
+                for _ in range(rng.choice([1, 1, 2, 3])):
+                    overruns[str(rng.randrange(0, its))] = rng.choice([P_ + 1, 2 * P_, 3 * P_ + 7, 25 * P_, P_ // 2])
+            periods.append({"iterations": its, "period_us": P_, "overruns": overruns,
                             "end": rng.choice(["disabled", "teleop", "exit"]), "disable_after": rng.random() < 0.6,
                             "disable_at": rng.randrange(0, its) if rng.random() < 0.25 else None,
                             "iter_fn": rng.choice(["fn", "fn", "list", "none"]), "watchdog": rng.choice([None, None, "simple", "wpilib"])})
             if periods[-1]["iter_fn"] == "none":
                 periods[-1]["disable_at"] = None
+                periods[-1]["overruns"] = {}
     ctor_args = rng.choice([None, None, [[1, "x"], {}], [[], {"k": 2}], [[None], {"a": 0, "b": "s"}]])
     return {"uid": uid, "pkg": pkg, "ctor_args": ctor_args, "namespace_pkg": rng.random() < 0.12, "missing": missing, "modules": modules, "fault": applied, "fms": fms, "select": sel,
             "reselect": rng.random() < 0.5,
@@ -570,8 +577,14 @@ def run_run_period(acc, case, selector, period, chosen, chosen_name, e):
     disable_at = period.get("disable_at")
     marks = {}
 
+    overruns = period.get("overruns") or {}
+
     def iter_fn():
         iters.append(e.now())
+        slow = overruns.get(str(len(iters) - 1))
+        if slow:
+            e.advance(slow)          # this iteration's body takes that long
+            acc.ev("run-iteration-overran-the-loop-period" if slow > P else "run-iteration-with-a-slow-body")
         if disable_at is not None and len(iters) - 1 == disable_at:
             # disable() arrives in the middle of the period (e.g. called from the robot's own code)
             selector.disable()
@@ -636,6 +649,8 @@ def run_run_period(acc, case, selector, period, chosen, chosen_name, e):
     acc.ev("period-run")
     if P == 1000:
         acc.ev("run-period-of-1ms")
+    if n_seen >= 100:
+        acc.ev("run-period-of-100-or-more-iterations")
     if "exc" in box:
         acc.violation("C14/run-raised", f"run() raised {box['exc']!r}", case, {})
         return "violation"
@@ -655,6 +670,17 @@ def run_run_period(acc, case, selector, period, chosen, chosen_name, e):
         n_expected = n_seen
     if not check_period_log(acc, case, list(sel_rt.LOG), chosen, chosen_name, n_expected, f"run() period ending by {period['end']}"):
         return "violation"
+    ts = [x[2] for x in sel_rt.LOG if x[0] == "on_iteration"]
+    if how != "none" and ts and len(iters) >= len(ts):
+        # "elapsed time": between any two iterations t grows by exactly what the FPGA clock grew (iter_fn runs right after
+        # on_iteration in the same loop pass and reads the clock before its own body takes any time)
+        acc.checks += len(ts)
+        for k, t in enumerate(ts):
+            if abs((t - ts[0]) - (iters[k] - iters[0]) / 1e6) > 1e-6:
+                acc.violation("C14/elapsed-time", f"run(): iteration {k} got elapsed time {t!r}, {t - ts[0]!r} s after the first one, but the clock had moved "
+                                                  f"{(iters[k] - iters[0]) / 1e6!r} s since then", case, {})
+                return "violation"
+        acc.ev("run-elapsed-time-checked", len(ts))
     if period.get("disable_after", True):
         # the documented disabledInit() hook: disable() after the period has already ended delivers nothing
         n0 = len(sel_rt.LOG)
